@@ -174,7 +174,9 @@ class Extraction:
                 if which in ('queued', 'submitted', 'drained', 'panics'):
                     r = ex.call(prog.find_impl_method(which, 'QueuingMetricSink'), [Ref(hc)])
                     ex.out['result'] = r
-                    return ('return', 'value')
+                    P.result_terms = getattr(P, 'result_terms', [])
+                    P.result_terms.append(r.t)
+                    return ('return', 'value#%d' % (len(P.result_terms) - 1))
                 if which in ('flush', 'stats'):
                     r = ex.call(prog.find_impl_method(which, 'QueuingMetricSink', 'MetricSink'), [Ref(hc)])
                     ex.out['result'] = r
@@ -305,8 +307,9 @@ def static_checks(x: Extraction, findings):
 # ---------------------------------------------------------------------------------------------------------
 
 class Product:
-    def __init__(self, x: Extraction, A, D, P, Q, producers=1, timeout_ms=120000):
+    def __init__(self, x: Extraction, A, D, P, Q, producers=1, timeout_ms=120000, sampler=False):
         self.x, self.A, self.D, self.P, self.Q, self.timeout_ms = x, A, D, P, Q, timeout_ms
+        self.sampler = sampler
         self.nprod = producers
         self.bounded = x.cap_mode == 'bounded'
         self.qmax = (Q if self.bounded else A) + 2
@@ -362,8 +365,13 @@ class Product:
                 self.prod_nodes[0]['edges'][(act, outc)] = (dst, o2)
         self.worker_nodes = compress(x.programs['worker'].nodes)
         self.slots = ['P%d' % i for i in range(self.nprod)] + ['W%d' % i for i in range(1 + self.P)]
+        if self.sampler:
+            self.sampler_nodes = compress(x.programs['queued'].nodes)
+            self.slots.append('S0')
 
     def nodes_of(self, slot):
+        if slot.startswith('S'):
+            return self.sampler_nodes
         return self.prod_nodes if slot.startswith('P') else self.worker_nodes
 
     # ---- encoding (bit-vectors: the query is bit-blasted to SAT) ------------------------------------------
@@ -416,7 +424,9 @@ class Product:
             st['pc:' + sl] = I(0)
             st['cur:' + sl] = I(self.EMPTY)
             st['mid:' + sl] = I(self.EMPTY)
-            st['active:' + sl] = z3.BoolVal(sl.startswith('P') or sl == 'W0')
+            st['active:' + sl] = z3.BoolVal(sl.startswith('P') or sl == 'W0' or sl.startswith('S'))
+            if sl.startswith('S'):
+                st['sres_bad'] = z3.BoolVal(False)
             st['ended:' + sl] = z3.BoolVal(False)
             st['panicked:' + sl] = z3.BoolVal(False)
         self.states = [st]
@@ -574,6 +584,17 @@ class Product:
                     upd['ended:' + sl] = z3.BoolVal(True)
                     if leaf[0] == 'panic':
                         upd['panicked:' + sl] = z3.BoolVal(True)
+                    if sl.startswith('S') and leaf[0] == 'return' and isinstance(leaf[1], str) and leaf[1].startswith('value#'):
+                        from .smt import _consts
+                        term = self.x.programs['queued'].result_terms[int(leaf[1].split('#')[1])]
+                        subs = []
+                        for c in _consts(term):
+                            nm = c.decl().name()
+                            if nm in self.reg_syms:
+                                subs.append((c, z3.ZeroExt(c.size() - self.W, cur['reg:%s:%s' % (sl, nm)])))
+                        tv = z3.substitute(term, *subs) if subs else term
+                        subn = [n for n in self.x.init['atomics'] if n.endswith('submitted')][0]
+                        upd['sres_bad'] = z3.UGT(tv, z3.ZeroExt(tv.size() - self.W, cur['at:' + subn]))
         upd['pc:' + sl] = I(newpc)
         qn = self.qmax
         eff_cap = cap if self.bounded else I(qn)
@@ -749,6 +770,9 @@ class Product:
         else:
             out[('C16', 'no-handler-configured')] = any_t(lambda t: z3.UGT(S[t]['hcalls'], 0))
         out[('C10', 'capacity-never-exceeded')] = any_t(lambda t: z3.And(z3.BoolVal(self.bounded), z3.UGT(S[t]['clen'], self.cap)))
+        if self.sampler:
+            out = {('C15', 'queued-never-panics'): any_t(lambda t: S[t]['panicked:S0']),
+                   ('C15', 'queued-in-range'): any_t(lambda t: S[t]['sres_bad'])}
         return out
 
     def check(self, cond, extra=()):
